@@ -103,3 +103,31 @@ def exhaustive_small(kind: str):
             yield Scenario(lines, {"family": "exhaustive_small", "filter": "none", "style": "exhaustive",
                                    "flexible": False, "zero_dur": gen.has_zero(jobs), "accepted": len(hist),
                                    "invalid": 0, "complete": True, "filter_style": "callable"})
+
+
+def zero_first_scenario(rng: random.Random) -> Scenario:
+    """Every job opens with a zero-duration operation; some of those are dispatched (all clocks still at 0, makespan 0), the
+    dispatcher is reset, and a full episode follows on the same dispatcher."""
+    family, jobs = gen.gen_instance(rng, rng.choice(["classic", "irregular", "recirc", "flexible"]), max_jobs=4, max_machines=3, max_ops=3)
+    jobs = [[(job[0][0], 0)] + list(job[1:]) for job in jobs]
+    f = gen.gen_filter(rng)
+    lines = ["new", instance_line(jobs), gen.filter_line(f), "snap"]
+    tr = gen.Tracker(jobs)
+    firsts = [j for j in range(len(jobs))]
+    rng.shuffle(firsts)
+    for j in firsts[:rng.randint(1, len(firsts))]:
+        m = rng.choice(jobs[j][0][0])
+        tr.take(j)
+        lines += [f"disp {j} 0 {m}", "snap", "q is_complete"]
+    lines += ["reset", "snap", "q num_scheduled"]
+    tr.reset()
+    n_acc = 0
+    while not tr.done():
+        j, p, m = gen.gen_valid_request(rng, tr)
+        tr.take(j)
+        n_acc += 1
+        lines += [f"disp {j} {p} {m}", "snap", "q is_complete"]
+    lines += ["q makespan", "q num_scheduled"]
+    return Scenario(lines, {"family": family + "+zero_first", "filter": "none" if f is None else "+".join(f) or "empty-composite",
+                            "style": "zero_first", "flexible": gen.is_flexible(jobs), "zero_dur": True, "accepted": n_acc,
+                            "invalid": 0, "complete": True, "filter_style": rng.choice(["callable", "enum", "str", "lazy"])})
